@@ -639,6 +639,7 @@ pub fn nontrivial_for(focus: &str, out: &RunOut) -> bool {
         "C11" => g("c11_timeouts_taking_effect") + g("c11_timeouts_without_effect_expected") > 0,
         "C12" => g("c12_replies_owed") > 0,
         "C13" => g("c13_stale_timer_delivered") + g("c13_ledger_checks_active") > 0,
+        "C14" => g("c14_rounds_monitored") > 0,
         "C15" => g("c15_nonempty_sections") > 0,
         "C16" => g("c16_items_sent") + g("c16_items_received") > 0,
         "C19" => g("datagrams_checked") > 0,
